@@ -76,6 +76,57 @@ CHECKS = {
             'bound of 3 empty reads stands for bounded I/O steps; watchdog '
             'firing = inconclusive.',
             'DESIGN.md §3 C15'),
+    'C09': ('exploration',
+            'conversation monitor at the server boundary + client callback '
+            'recorder; decision-function oracle',
+            'Generated (allowed set, default, server behaviour) configurations:'
+            ' TCP connections, handshake fields, login names, error class and '
+            'message facts, fallback conditions; plain status() in all 9 '
+            'handler modes (stdout captured); refused constructions.',
+            'version order read from the tree (checked by C08); a close seen '
+            'as TCP reset is a transport error, not judged.',
+            'DESIGN.md §3 C09'),
+    'C10': ('exploration',
+            'scripted independent login server (own RSA key, CFB8, framing): '
+            'client bytes parsed under the state the script dictates; '
+            'Yggdrasil stand-in; behavioural play-state probe',
+            'Every permutation of {encrypt?, compress?, 0-2 plugin requests} x '
+            'terminal {success, 10 disconnect forms} x 10 versions around the '
+            'login layout boundaries x server id x auth token x user plugin '
+            'handler (quick samples, thorough covers the permutations).',
+            'non-release versions use the tree\'s ids/layouts; the server '
+            'collects plugin answers before switching compression.',
+            'DESIGN.md §3 C10'),
+    'C13': ('exploration',
+            'event-log monitor (listener calls, reaction wrapper, attributed '
+            'socket sends) vs. reference dispatcher; wire suppression oracle',
+            'Generated listener configurations (4 lists, type hierarchy, '
+            'ignore subsets, method/decorator) x login+play histories x '
+            'queued/forced outgoing packets; per-packet call sequence equality '
+            'and wire effects of ignores.',
+            'reaction located by a class-level wrapper calling the original; '
+            'sends attributed via the _write_packet frame (zero attributions ='
+            ' inconclusive).',
+            'DESIGN.md §3 C13'),
+    'C14': ('fault_enumeration',
+            'fault injection at 7 origins; handler-call log + excepthook + '
+            'server EOF monitors; executable try/except-chain model',
+            '7 origins x generated handler chains x 4 final-handler modes: '
+            'calls and exceptions received, recorded exception/exc_info, '
+            're-raise, closure, no extra connection, reconnect-from-handler, '
+            'and a fresh connect() on the same object afterwards.',
+            'status-phase EOF fallback excluded (C15).',
+            'DESIGN.md §3 C14'),
+    'C19': ('exploration',
+            'real HTTP against a scripted local stand-in; request recorder; '
+            'model token',
+            'Full status x body product per operation, and operation '
+            'sequences from all 32 initial field subsets: endpoint, payload, '
+            'stored credentials, return values, error fields, unchanged state '
+            'on failure, local refusals.',
+            'sign_out on 204 and the shape of join.selectedProfile are '
+            'observations only.',
+            'DESIGN.md §3 C19'),
     'C02': ('exploration',
             'runtime monitor: recording sink + counting stream + step budget '
             'around the real codecs; independent wire-type oracle; prefix rule',
